@@ -182,6 +182,18 @@ func (g *sgen) stmt() Stmt {
 			return Stmt{Kind: "simple", Lines: []string{g.v() + " = " + a}, Ticks: []int{t}}
 		}
 		return Stmt{Kind: "compound", Lines: []string{"if True:", in + g.v() + " = " + a, in + g.v() + " = 5"}, Ticks: []int{t}}
+	case x < 31 && r.Chance(1, 4):
+		// the embedder's feed(line) types complete one-line statements into the
+		// very same session while a multi-line statement is executing (REPL.Run
+		// is re-entered): each runs once, at once, and is echoed like any line
+		a, t := g.tk(g.intExpr())
+		b, t2 := g.tk(g.v() + " + 1")
+		fedLines := "['" + g.v() + " = " + a + "', '" + b + "']"
+		if r.Chance(1, 2) {
+			return Stmt{Kind: "feedloop", Lines: []string{"for q in " + fedLines + ":", in + "feed(q)"}, Ticks: []int{t, t2}}
+		}
+		c, t3 := g.tk("1")
+		return Stmt{Kind: "feedloop", Lines: []string{"if True:", in + "feed('" + b + "')", in + g.v() + " = " + c}, Ticks: []int{t2, t3}}
 	case x < 31 && r.Chance(1, 3):
 		// a backslash-newline INSIDE a single-quoted string literal continues the string on the next line
 		q := []string{"'", "\""}[r.Intn(2)]
@@ -337,7 +349,7 @@ func (Engine) Gen(seed uint64, idx int, tier string) interface{} {
 	r := simrt.NewRand(simrt.Mix(seed, 0x20, uint64(idx)))
 	g := &sgen{r: r, ind: []string{"    ", "  ", "\t", "        "}[r.Intn(4)]}
 	sc := &Scenario{Order: simrt.MapOrder{Kind: r.Intn(4), K: r.Uint64()}}
-	sc.Stmts = append(sc.Stmts, Stmt{Kind: "simple", Lines: []string{"from simlog import tk, echo"}})
+	sc.Stmts = append(sc.Stmts, Stmt{Kind: "simple", Lines: []string{"from simlog import tk, echo, feed"}})
 	for i := 0; i < 4; i++ {
 		sc.Stmts = append(sc.Stmts, Stmt{Kind: "simple", Lines: []string{fmt.Sprintf("v%d = %d", i, i)}})
 	}
@@ -519,6 +531,20 @@ func (Engine) Exec(sci interface{}, opt harness.ExecOpts) *harness.Outcome {
 					cur.ticks = append(cur.ticks, int(id))
 				}
 			}
+			if kind == "feed" && cur != nil && len(args) == 1 {
+				// the fed line is a statement of its own: evaluate-and-echo if it is an expression, execute otherwise
+				line, _ := args[0].(py.String)
+				if code, err := py.Compile(strings.TrimSpace(string(line)), "<ref-fed>", py.EvalMode, 0, true); err == nil {
+					if v, err := rs.Ctx.RunCode(code, rs.Main.Globals, rs.Main.Globals, nil); err == nil && v != py.None {
+						if rp, err := py.Repr(v); err == nil {
+							cur.echoes = append(cur.echoes, string(rp.(py.String)))
+							lastVal = string(rp.(py.String))
+						}
+					}
+				} else if code, err := py.Compile(string(line)+"\n", "<ref-fed>", py.ExecMode, 0, true); err == nil {
+					rs.Ctx.RunCode(code, rs.Main.Globals, rs.Main.Globals, nil)
+				}
+			}
 			if kind == "echo" && cur != nil && len(args) == 1 && args[0] != py.None {
 				if rp, err := py.Repr(args[0]); err == nil {
 					cur.echoes = append(cur.echoes, string(rp.(py.String)))
@@ -597,6 +623,12 @@ func (Engine) Exec(sci interface{}, opt harness.ExecOpts) *harness.Outcome {
 				if id, ok := args[0].(py.Int); ok {
 					ticks = append(ticks, tickRec{ui.run, int(id)})
 					simrt.Log("tick", fmt.Sprint(int(id)))
+				}
+			}
+			if kind == "feed" && len(args) == 1 {
+				if line, ok := args[0].(py.String); ok {
+					simrt.Log("fed-from-inside", string(line))
+					rp.Run(string(line))
 				}
 			}
 		}
@@ -906,6 +938,11 @@ func runCLI(lines []string) (transcript string, ticks []int, errMsg string) {
 		if kind == "tick" && len(args) > 0 {
 			if id, ok := args[0].(py.Int); ok {
 				ticks = append(ticks, int(id))
+			}
+		}
+		if kind == "feed" && len(args) == 1 {
+			if line, ok := args[0].(py.String); ok {
+				rp.Run(string(line))
 			}
 		}
 	}
